@@ -12,6 +12,7 @@ variable {κ ν : Type}
 
 inductive Op (κ ν : Type) where
   | ins (k : κ) (v : ν)      -- p_tree_insert
+  | insf (k : κ) (v : ν)     -- p_tree_insert while the allocator is out of memory (the node allocation, if one is needed, fails)
   | rem (k : κ)              -- p_tree_remove
   | get (k : κ)              -- p_tree_lookup
   | each (j : Nat)           -- p_tree_foreach, callback asks to stop at its j-th call (0 = never)
@@ -35,6 +36,10 @@ def newFull (ty : Int) (funcGiven allocOk : Bool) : Bool :=
 /-! ### spec -/
 def specStep (cmp : κ → κ → Ordering) (l : List (κ × ν)) : Op κ ν → List (κ × ν) × Out κ ν
   | .ins k v => let l' := SM.insert cmp l k v; (l', .ins l'.length (SM.find cmp l k).toList)
+  | .insf k v =>             -- replacing needs no memory; a new key cannot be added: nothing changes, nothing is destroyed
+    if (SM.find cmp l k).isSome then
+      let l' := SM.insert cmp l k v; (l', .ins l'.length (SM.find cmp l k).toList)
+    else (l, .ins l.length [])
   | .rem k => let l' := SM.erase cmp l k; (l', .rem (SM.find cmp l k).isSome l'.length (SM.find cmp l k).toList)
   | .get k => (l, .got (SM.lookup cmp l k))
   | .each j => (l, .visited (if j = 0 then l else l.take j))
@@ -54,6 +59,14 @@ def bstStep (cmp : κ → κ → Ordering) (s : BT κ ν × Int) : Op κ ν → 
     let (t', a, d) := s.1.ins cmp k v
     let n' := if a then s.2 + 1 else s.2
     ((t', n'), .ins n' d)
+  | .insf k v =>
+    -- the search loop of p_tree_bst_insert ends on a node with an equal key (replace path: no allocation) or on a NULL
+    -- link, where `p_malloc0` fails: `*cur_node` stays NULL, FALSE is returned, `nnodes` is not touched
+    if (s.1.lookup cmp k).isSome then
+      let (t', a, d) := s.1.ins cmp k v
+      let n' := if a then s.2 + 1 else s.2
+      ((t', n'), .ins n' d)
+    else (s, .ins s.2 [])
   | .rem k =>
     let (t', f, d) := s.1.del cmp k
     let n' := if f then s.2 - 1 else s.2
@@ -76,6 +89,12 @@ def avlStep (cmp : κ → κ → Ordering) (s : AT κ ν × Int) : Op κ ν → 
     (s.1.ins cmp k v).map fun (t', _, a, d) =>
       let n' := if a then s.2 + 1 else s.2
       ((t', n'), .ins n' d)
+  | .insf k v =>             -- as for the plain BST: p_tree_avl_insert returns FALSE before any balance factor is touched
+    if (s.1.toBT.lookup cmp k).isSome then
+      (s.1.ins cmp k v).map fun (t', _, a, d) =>
+        let n' := if a then s.2 + 1 else s.2
+        ((t', n'), .ins n' d)
+    else some (s, .ins s.2 [])
   | .rem k =>
     (s.1.del cmp k).map fun (t', _, f, d) =>
       let n' := if f then s.2 - 1 else s.2
@@ -101,6 +120,12 @@ def rbStep (cmp : κ → κ → Ordering) (s : RT κ ν × Int) : Op κ ν → O
     (s.1.ins cmp k v).map fun (t', a, d) =>
       let n' := if a then s.2 + 1 else s.2
       ((t', n'), .ins n' d)
+  | .insf k v =>             -- p_tree_rb_insert returns FALSE before any colour is touched
+    if (s.1.toBT.lookup cmp k).isSome then
+      (s.1.ins cmp k v).map fun (t', a, d) =>
+        let n' := if a then s.2 + 1 else s.2
+        ((t', n'), .ins n' d)
+    else some (s, .ins s.2 [])
   | .rem k =>
     (s.1.del cmp k).map fun (t', f, d) =>
       let n' := if f then s.2 - 1 else s.2
